@@ -39,6 +39,7 @@ func checkC01(c *Ctx) {
 	c.resultListsReset()
 	c.wildcardCoversParent()
 	c.endOfLevelsSignal()
+	c.lookupsConsultTheTree()
 	r := c.Roles()
 	if !c.Need("hand-over (fan-out)", r.HandOver, "teardown", r.Stop, "start", r.Start) {
 		return
@@ -177,6 +178,20 @@ func (c *Ctx) fanOut(fn *ssa.Function) {
 	if g.FindPath(g.Succ(scN), nil, func(n paths.Node) bool { return n == subjNode }) == nil ||
 		g.FindPath([]paths.Node{g.Entry()}, func(n paths.Node) bool { return n == scN }, func(n paths.Node) bool { return n == subjNode }) != nil {
 		bad = append(bad, "the list is read before the lookup fills it")
+	}
+	// what the lookup put into the two lists is what the loop sees: nothing re-slices, compacts or replaces a list
+	// between the lookup and the loop (a list shortened without the other one moves every later subscriber to
+	// another subscriber's QoS; entries merged or dropped are matching subscriptions that get no delivery)
+	listStore := func(n paths.Node) bool {
+		st, ok := n.Instr.(*ssa.Store)
+		if !ok || n.Phase >= 0 {
+			return false
+		}
+		sp := framePath(n.F, st.Addr)
+		return ir.SamePath(sp, subsPath) || ir.SamePath(sp, qossPath)
+	}
+	if q := g.FindPath(g.Succ(scN), func(n paths.Node) bool { return n == subjNode }, listStore); q != nil {
+		bad = append(bad, "a result list of the lookup is replaced at "+c.P.InstrPos(q[len(q)-1].Instr)+" before the loop reads it: the loop no longer sees the matched (subscriber, QoS) pairs as the tree reported them")
 	}
 	for _, e := range loop.ExitEdges() {
 		if e[0] != loop.Header {
